@@ -44,6 +44,12 @@ var catalogs = map[string][]world.ITSpec{
 	// K3: reserved offerings (shared reservation id r1 on both types), plus on-demand
 	"K3": {{Name: "m", CPU: 4, MemGi: 8, Pods: 6, Offers: []world.OfSpec{{Zone: "a", CT: "reserved", Price: 0.01, Available: true, RID: "r1", ResCap: 1}, of("a", "on-demand", 2), of("b", "on-demand", 2.1)}},
 		{Name: "l", CPU: 8, MemGi: 16, Pods: 8, Offers: []world.OfSpec{{Zone: "a", CT: "reserved", Price: 0.02, Available: true, RID: "r1", ResCap: 1}, {Zone: "b", CT: "reserved", Price: 0.02, Available: true, RID: "r2", ResCap: 2}, of("a", "on-demand", 4), of("b", "on-demand", 4.1)}}},
+	// KZ: four types of one size whose price ORDER differs per zone (rising in zone a, falling in zone b): the cheapest
+	// types for a zone-a request are the dearest for a zone-b request
+	"KZ": {{Name: "t1", CPU: 4, MemGi: 8, Pods: 6, Offers: []world.OfSpec{of("a", "on-demand", 1), of("b", "on-demand", 4)}},
+		{Name: "t2", CPU: 4, MemGi: 8, Pods: 6, Offers: []world.OfSpec{of("a", "on-demand", 2), of("b", "on-demand", 3)}},
+		{Name: "t3", CPU: 4, MemGi: 8, Pods: 6, Offers: []world.OfSpec{of("a", "on-demand", 3), of("b", "on-demand", 2)}},
+		{Name: "t4", CPU: 4, MemGi: 8, Pods: 6, Offers: []world.OfSpec{of("a", "on-demand", 4), of("b", "on-demand", 1)}}},
 	// K4: provider labels fam / gen, one offering with a smaller capacity override (m, zone b spot) and one with a
 	// LARGER one (s, zone a on-demand: 4 cpu instead of 2)
 	"K4": {{Name: "s", CPU: 2, MemGi: 4, Pods: 4, Fam: "x", Gen: "1", Offers: []world.OfSpec{of("a", "spot", 0.6), of("b", "spot", 0.65), {Zone: "a", CT: "on-demand", Price: 1, Available: true, OverCPU: 4}, of("b", "on-demand", 1.05)}},
@@ -321,6 +327,9 @@ type SchedEnv struct {
 	Volumes  map[string][]oracle.Volume // pod name -> volumes
 	Hooks    *Hooks
 	NoLaunch int // NodeClaims created whose request permits no launch at all
+	// Between, if set, runs after Provisioner.Schedule decided and before the NodeClaims are created (the world may move
+	// between the decision and the launch)
+	Between func()
 }
 
 // multisets of size <= k over n shapes, in order of size then lexicographic
@@ -422,6 +431,9 @@ func (env *SchedEnv) runPass(run *explore.Run, workersOverride int) (out schedOu
 	out.Results, out.Err = res, err
 	if err != nil {
 		return out
+	}
+	if env.Between != nil {
+		env.Between()
 	}
 	// CreateNodeClaims fans out through client-go's ParallelizeUntil; create one by one to keep the order owned.
 	for _, nc := range res.NewNodeClaims {
